@@ -6,7 +6,8 @@ set -u
 seed=$(readlink -f "$1"); id=$2; tier=${3:-quick}; shift 3 2>/dev/null || shift 2
 cd "$(dirname "$0")/.."
 scratch=$(mktemp -d /tmp/seedtest-XXXXXX)
-trap 'rm -rf "$scratch" .work/alt-*' EXIT
+alt=.work/alt-$(echo "$scratch/repo" | md5sum | cut -c1-8)
+trap 'rm -rf "$scratch" "$alt"' EXIT
 rsync -a --exclude .git /repo/ "$scratch/repo/"
 if ! (cd "$scratch/repo" && patch -p1 -s < "$seed/patch.diff"); then echo "SEEDTEST: patch does not apply"; exit 3; fi
 cp KNOWN_FINDINGS.txt "$scratch/"
